@@ -1,4 +1,5 @@
 import PyTrie.Lemmas.WalkProofs
+import PyTrie.Lemmas.WalkConcrete
 import PyTrie.Props.C08
 /-! # C09 — a fog-guided walk finds everything, even while the trie changes
 
@@ -56,5 +57,59 @@ theorem step_decreases (L : Nat) (s s' : WState) (hw : Wf s.fog) (hg : Grounded 
     mu L s'.fog < mu L s.fog ∧ Grounded L s'.fog := wstep_decreases L s s' hw hg t hc hL p hp h
 
 theorem measure_start (L : Nat) : mu L Fog.init = 17 ^ (L + 1) ∧ Grounded L Fog.init := mu_start L
+
+end PyTrie.Props.C09
+
+/-! ## The walk as callers write it, with the `TrieFrontierCache`
+
+`Model/Walk.lean` transcribes the loop body (cache lookup → `traverse_from(cached parent, segment)` or
+`traverse(prefix)` → simulated node on a partial path → `explore` → `cache.add` / `cache.delete`); the
+correspondence check drives exactly these calls on the real objects. The cached parents are node objects of
+*older* versions of the trie. -/
+namespace PyTrie.Props.C09
+open PyTrie PyTrie.Hex PyTrie.Fog PyTrie.Walk
+
+/-- a concrete step (cache hit or miss) is an abstract step on some version that occurred, and every cache entry
+    keeps describing some version at its prefix -/
+theorem concrete_step (versions : List Node) (t : Node) (ht : t ∈ versions) (hcv : ∀ v ∈ versions, Canon v)
+    (s : CState) (hc : CacheOkV versions s.cache) (p : Path) (s' : CState) (h : cstep t s p = some s') :
+    (∃ v ∈ versions, wstep (toW s) v p = some (toW s')) ∧ CacheOkV versions s'.cache :=
+  cstep_is_wstep versions t ht hcv s hc p s' h
+
+/-- **the concrete walk with the cache finds every stable key**: `sched` lists the trie's current version and
+    the chosen prefix at each step (any order, any interleaving with modifications, stale cache entries
+    included); once the fog is complete every key that had the value `val` in all those versions has been met -/
+theorem concrete_finds_stable (sched : List (Node × Path)) (s' : CState)
+    (hcanon : ∀ e ∈ sched, Canon e.1) (k : Path) (val : Bytes) (hval : val ≠ [])
+    (hstable : ∀ e ∈ sched, get e.1 k = val)
+    (hrun : crun cstart sched = some s') (hdone : s'.fog = []) : (k, val) ∈ s'.met := by
+  have hcv : ∀ v ∈ sched.map Prod.fst, Canon v := by
+    intro v hv
+    obtain ⟨e, he, rfl⟩ := List.mem_map.mp hv
+    exact hcanon e he
+  obtain ⟨sched', _, hV, hr⟩ := crun_is_wrun (sched.map Prod.fst) hcv sched cstart s'
+    (fun e he => List.mem_map.mpr ⟨e, he, rfl⟩) (cacheOkV_empty _) hrun
+  have hcan' : ∀ e ∈ sched', Canon e.1 := fun e he => hcv _ (hV e he)
+  have hst' : ∀ e ∈ sched', get e.1 k = val := by
+    intro e he
+    obtain ⟨e0, he0, h0⟩ := List.mem_map.mp (hV e he)
+    rw [← h0]
+    exact hstable e0 he0
+  exact walk_finds_stable sched' (toW s') hcan' k val hval hst' hr hdone
+
+/-- and it meets nothing that was never stored -/
+theorem concrete_sound (sched : List (Node × Path)) (s' : CState)
+    (hcanon : ∀ e ∈ sched, Canon e.1) (hrun : crun cstart sched = some s') (k : Path) (v : Bytes)
+    (hm : (k, v) ∈ s'.met) : ∃ e ∈ sched, v ≠ [] ∧ get e.1 k = v := by
+  have hcv : ∀ v ∈ sched.map Prod.fst, Canon v := by
+    intro v hv
+    obtain ⟨e, he, rfl⟩ := List.mem_map.mp hv
+    exact hcanon e he
+  obtain ⟨sched', _, hV, hr⟩ := crun_is_wrun (sched.map Prod.fst) hcv sched cstart s'
+    (fun e he => List.mem_map.mpr ⟨e, he, rfl⟩) (cacheOkV_empty _) hrun
+  have hcan' : ∀ e ∈ sched', Canon e.1 := fun e he => hcv _ (hV e he)
+  obtain ⟨e, he, hne, hg⟩ := sound sched' (toW s') hcan' hr k v hm
+  obtain ⟨e0, he0, h0⟩ := List.mem_map.mp (hV e he)
+  exact ⟨e0, he0, hne, by rw [h0]; exact hg⟩
 
 end PyTrie.Props.C09
